@@ -352,6 +352,13 @@
 ;@module keysets group hd
 ; NUT-02 keyset id as a function of the amount -> public key map (contents)
 (declare-fun ksid ((Array Int Bool) (Array Int Ref) (Array Ref github.com/decred/dcrd/dcrec/secp256k1/v4.PublicKey)) Str)
+; the id of the keyset generated from (master key, derivation index): all 60 keys are functions of the two
+; (GenerateKeyset @keys, proved) and the id is a function of the keys (ksid), so the id is one too (A-KSID, assumed clause of GenerateKeyset)
+(declare-fun hd.ksid (Ref Int) Str)
+; choice function: THE active row of a keyset table (only meaningful under the store invariant dbkinv of the mint contracts)
+(declare-fun ks.active ((Array Str Bool) (Array Str mint/storage.DBKeyset)) Str)
+; choice axiom: if the table has an active row at all, ks.active picks one (consistent: Hilbert choice)
+(assert (forall ((k (Array Str Bool)) (r (Array Str mint/storage.DBKeyset)) (id Str)) (! (=> (and (select k id) (mint/storage.DBKeyset.Active (select r id))) (and (select k (ks.active k r)) (mint/storage.DBKeyset.Active (select r (ks.active k r))))) :pattern ((select k id) (select r id) (ks.active k r)))))
 
 ;@module http bytes strings
 ; Ghost model of one HTTP exchange (DESIGN.md §5.4): the status line and the
